@@ -1,5 +1,6 @@
 import FteikVerif.Proofs.GenReal
 import FteikVerif.Proofs.GenEquivWhole2
+import FteikVerif.Proofs.GenEquivWhole3
 /-!
 # The whole-solver equivalence at the real numbers, with no scalar hypotheses left
 
@@ -40,5 +41,39 @@ theorem gen_fteik2d_eq_real (big : ℝ) (slow : Grid2 ℝ) (dz dx zs xs : ℝ) (
     Gen.F2.fteik2d big slow dz dx zs xs (nsweep : Int) grad
       = (fteik2d big slow slow.size (slow.getD 0 #[]).size dz dx zs xs nsweep grad).map (fun o => (o.tt, o.grad, o.vzero)) :=
   gen_fteik2d_eq farLaw_real big slow dz dx zs xs nsweep grad hz hx (truncNonneg2_real slow dz dx zs xs hdz hdx)
+
+theorem real_eps15_le_one : (Scalar.eps15 : ℝ) ≤ 1 := by
+  show ((1 : Int) : ℝ) / ((1000000000000000 : Int) : ℝ) ≤ 1
+  norm_num
+
+theorem real_clamp3_nonneg (x : ℝ) (n : Nat) (hn : 1 ≤ n) (hx : 0 ≤ x) :
+    0 ≤ (if Scalar.ge x (Scalar.ofInt (n : Int) : ℝ) = true then x - Scalar.eps15 else x) := by
+  split
+  · rename_i h
+    rw [real_ge] at h
+    have h0 : (1 : ℝ) ≤ ((n : Int) : ℝ) := by exact_mod_cast hn
+    have h1 : (1 : ℝ) ≤ x := le_trans h0 h
+    have := real_eps15_le_one
+    linarith
+  · exact hx
+
+theorem truncNonneg3_real (slow : Grid3 ℝ) (dz dx dy zs xs ys : ℝ) (hdz : 0 < dz) (hdx : 0 < dx) (hdy : 0 < dy)
+    (hz : 1 ≤ slow.size) (hx : 1 ≤ (slow.getD 0 #[]).size) (hy : 1 ≤ ((slow.getD 0 #[]).getD 0 #[]).size)
+    (hin : inModel3 slow dz dx dy zs xs ys = true) : TruncNonneg3 slow dz dx dy zs xs ys := by
+  unfold inModel3 at hin
+  simp only [Bool.and_eq_true, real_le, real_zero] at hin
+  obtain ⟨⟨⟨hz0, _⟩, ⟨hx0, _⟩⟩, ⟨hy0, _⟩⟩ := hin
+  exact ⟨real_trunc_nonneg _ (real_clamp3_nonneg _ _ hz (div_nonneg hz0 hdz.le)),
+    real_trunc_nonneg _ (real_clamp3_nonneg _ _ hx (div_nonneg hx0 hdx.le)),
+    real_trunc_nonneg _ (real_clamp3_nonneg _ _ hy (div_nonneg hy0 hdy.le))⟩
+
+/-- **Over the reals the `fteik3d` compiled from the source is the model's `fteik3d`.** -/
+theorem gen_fteik3d_eq_real (big : ℝ) (slow : Grid3 ℝ) (dz dx dy zs xs ys : ℝ) (nsweep : Nat) (grad : Bool)
+    (hz : 1 ≤ slow.size) (hx : 1 ≤ (slow.getD 0 #[]).size) (hy : 1 ≤ ((slow.getD 0 #[]).getD 0 #[]).size)
+    (hdz : 0 < dz) (hdx : 0 < dx) (hdy : 0 < dy) :
+    Gen.F3.fteik3d big slow dz dx dy zs xs ys (nsweep : Int) grad
+      = (fteik3d big slow slow.size (slow.getD 0 #[]).size ((slow.getD 0 #[]).getD 0 #[]).size dz dx dy zs xs ys nsweep grad).map
+          (fun o => (o.tt, o.grad, o.vzero)) :=
+  gen_fteik3d_eq big slow dz dx dy zs xs ys nsweep grad hz hx hy (truncNonneg3_real slow dz dx dy zs xs ys hdz hdx hdy hz hx hy)
 
 end Fteik
